@@ -45,6 +45,13 @@ def main():
             env = dict(os.environ, VERIF_REPO=MUT + "/repo", VERIF_NO_EVIDENCE="1")
             r = subprocess.run([os.path.join(VERIF, "check"), prop, "--tier", m.get("tier", tier)], env=env, capture_output=True, text=True)
             viol = [l for l in r.stdout.split("\n") if l.startswith("VIOLATION")]
+            if m.get("expect") == "pass":
+                # behaviour-preserving edit: the check must not alarm (0 = held, 2 = undecided is tolerated)
+                verdict = {0: "CAUGHT-NOTHING-OK ", 2: "CAUGHT-NOTHING-UNDECIDED "}.get(r.returncode, "FALSE-ALARM exit=%d " % r.returncode)
+                if viol: verdict = "FALSE-ALARM "
+                rows.append((m["name"] + " -> " + prop, verdict + "%.0fs " % (time.time() - t0) + r.stdout[-200:].replace("\n", " ")))
+                print(rows[-1], flush=True)
+                continue
             ok = r.returncode == 1 and viol
             rows.append((m["name"] + " -> " + prop, ("CAUGHT " if ok else "MISSED exit=%d " % r.returncode) + "%.0fs " % (time.time() - t0) + " | ".join(v.split("obligation=")[-1] for v in viol)[:200] + ("" if ok else r.stdout[-300:])))
             print(rows[-1], flush=True)
